@@ -4,6 +4,8 @@
 #include <adm/adm.hpp>
 #include <adm/common_definitions.hpp>
 #include <adm/parse.hpp>
+#include <adm/serial.hpp>
+#include <chrono>
 #include <adm/write.hpp>
 #include <adm/utilities/copy.hpp>
 #include <adm/utilities/id_assignment.hpp>
@@ -87,6 +89,51 @@ int run_alias(std::ostream& out) {
     std::istringstream i3(bytes);
     auto c = parseXml(i3, xml::ParserOptions::recursive_node_search);
     report("parseXml-third", xml_of(c) == pristine, "third parse differs");
+  }
+  {  // parseXml with a FrameHeader (SADM frames): every overload returns a fresh document
+    auto src = Document::create();
+    auto holder = addSimpleObjectTo(src, "o1");
+    FrameFormat ff(FrameFormatId(FrameIndex(1)), Start(std::chrono::nanoseconds(0)), Duration(std::chrono::nanoseconds(1000000000)), FrameType::FULL);
+    FrameHeader header(ff);
+    std::ostringstream o;
+    writeXml(o, src, header);
+    std::string bytes = o.str();
+    std::istringstream i1(bytes);
+    auto a = parseXml(i1, header);
+    std::string pristine = xml_of(a);
+    bool threw = false;
+    std::shared_ptr<Document> b;
+    try {
+      std::istringstream i2(bytes);
+      b = parseXml(i2, header);
+    } catch (const std::exception& e) { threw = true; report("parseXml-frame-second-parse", false, std::string("second parse of the same frame throws: ") + e.what()); }
+    if (!threw) {
+      report("parseXml-frame-second-parse", xml_of(b) == pristine, "second parse of the same frame differs");
+      bool shared = (a == b);
+      for (auto& x : a->getElements<AudioChannelFormat>())
+        for (auto& y : b->getElements<AudioChannelFormat>()) if (x == y) shared = true;
+      report("parseXml-frame-disjoint-objects", !shared, "two parses of a frame share the document or an element object");
+    }
+    mutate(a);
+    try {
+      std::istringstream i3(bytes);
+      auto c = parseXml(i3, header, xml::ParserOptions::permit_time_reference_mismatch);
+      report("parseXml-frame-after-mutation", xml_of(c) == pristine, "a parse after mutating an earlier result differs");
+      std::istringstream i4(bytes);
+      FrameHeader h2 = parseFrameHeader(i4);
+      std::istringstream i5(bytes);
+      auto d = parseXml(i5, h2);
+      report("parseXml-frame-parsed-header", xml_of(d) == pristine, "parse with the parsed header differs");
+    } catch (const std::exception& e) { report("parseXml-frame-after-mutation", false, std::string("throws: ") + e.what()); }
+    // a plain parse afterwards starts from pristine common definitions
+    auto plain = Document::create();
+    addSimpleObjectTo(plain, "o2");
+    std::string pb = xml_of(plain);
+    try {
+      std::istringstream i6(pb);
+      auto e1 = parseXml(i6);
+      report("parseXml-plain-after-frames", xml_of(e1) == pb, "a plain parse after frame parses differs from its input document");
+    } catch (const std::exception& e) { report("parseXml-plain-after-frames", false, std::string("throws: ") + e.what()); }
   }
   {  // Document::create and deepCopy
     auto a = Document::create();
